@@ -24,7 +24,14 @@ import (
 	"time"
 )
 
-const verifDir = "/verif"
+// verifDir is where this copy of the machinery lives: /verif for the
+// registered commands; a snapshot directory when started from one (vp run).
+var verifDir = func() string {
+	if d := os.Getenv("VERIF_DIR"); d != "" {
+		return d
+	}
+	return "/verif"
+}()
 
 type Job struct {
 	ID      int      `json:"id"`
@@ -102,8 +109,16 @@ func goroot() string {
 	return strings.TrimSpace(string(out))
 }
 
+// build compiles the simulator against /repo's working tree. For scratch
+// experiments only (background sweeps, trying a change in a worktree) the
+// environment may redirect it: VCHECK_REPO=<dir> builds against that copy of
+// bluge through an alternative module file, VCHECK_BUILD=<dir> puts the
+// outputs elsewhere. The registered commands set neither.
 func build(race bool) string {
 	bdir := filepath.Join(verifDir, "build")
+	if d := os.Getenv("VCHECK_BUILD"); d != "" {
+		bdir = d
+	}
 	_ = os.MkdirAll(bdir, 0755)
 	ov := filepath.Join(bdir, "overlay")
 	cmd := exec.Command("python3", filepath.Join(verifDir, "overlay/gen_overlay.py"), goroot(), ov)
@@ -115,6 +130,20 @@ func build(race bool) string {
 	if race {
 		bin = filepath.Join(bdir, "bsim.race.test")
 		args = []string{"test", "-c", "-race", "-tags", "verif", "-overlay", filepath.Join(ov, "overlay.json"), "-o", bin}
+	}
+	if alt := os.Getenv("VCHECK_REPO"); alt != "" {
+		mod, err := os.ReadFile(filepath.Join(verifDir, "sim", "go.mod"))
+		if err != nil {
+			fatal2("cannot read go.mod: %v", err)
+		}
+		altMod := filepath.Join(bdir, "alt.go.mod")
+		if err := os.WriteFile(altMod, []byte(strings.Replace(string(mod), "=> /repo", "=> "+alt, 1)), 0644); err != nil {
+			fatal2("cannot write %s: %v", altMod, err)
+		}
+		sum, _ := os.ReadFile(filepath.Join(verifDir, "sim", "go.sum"))
+		_ = os.WriteFile(filepath.Join(bdir, "alt.go.sum"), sum, 0644)
+		args = append(args[:1], append([]string{"-modfile", altMod}, args[1:]...)...)
+		fmt.Printf("vcheck: building against %s (VCHECK_REPO), not /repo\n", alt)
 	}
 	args = append(args, ".")
 	c := exec.Command("go1.26.8", args...)
